@@ -14,7 +14,7 @@ import traceback
 from . import REPO, symx
 
 HERE = os.path.dirname(os.path.dirname(os.path.abspath(__file__)))
-EVIDENCE_DIR = os.path.join(HERE, 'evidence')
+EVIDENCE_DIR = os.environ.get('VERIF_EVIDENCE_DIR') or os.path.join(HERE, 'evidence')
 REPLAY_DIR = os.path.join(HERE, 'replays')
 KNOWN = os.path.join(HERE, 'known_findings.json')
 
